@@ -229,6 +229,32 @@ def check(ctx):
         if not ok:
             viol("R-C07.4", "pragma-string-node", f"the parser stores a node in Pragma.string for the _Pragma operator ({node_valued[0]}), but visit_Pragma concatenates it with a str: generating code for `_Pragma(\"x\")` raises TypeError", "CGenerator.visit_Pragma", pr)
 
+    # the exemption ("Typename", "quals") rests on a fact of the PARSER: every type assembled by _fix_decl_name_type is normalised by
+    # fix_atomic_specifiers, so no Typename carrying _Atomic stays nested inside a TypeDecl where the generator would not print its qualifier
+    from .. import wirecheck as WC2
+    curw = WC2.current()
+    nfix = 0
+    for m_, info in sorted(curw.items()):
+        made = set()
+        for lab, fa in info["records"]:
+            if lab == "call:_fix_decl_name_type":
+                made.add(m_)
+        if not made:
+            continue
+        normalised = set()
+        for lab, fa in info["records"]:
+            if lab == "call:fix_atomic_specifiers":
+                normalised |= {v for v in fa.get("decl", []) if v.startswith("_fix_decl_name_type#")}
+        ncalls = sum(1 for lab, _ in info["records"] if lab == "call:_fix_decl_name_type")
+        ok = len(normalised) >= ncalls
+        nfix += 1
+        ctx.oblige("R-C07.4", f"{m_}: types assembled by _fix_decl_name_type are normalised by fix_atomic_specifiers", ok, sample={"rule": "R-C07.4", "method": m_, "_fix_decl_name_type calls": ncalls, "normalised": sorted(normalised)})
+        if not ok:
+            viol("R-C07.4", f"atomic-not-normalised:{m_}", f"{m_} returns a type assembled by _fix_decl_name_type without passing it through fix_atomic_specifiers: for `_Atomic(int)` as the whole type (sizeof, cast, unnamed parameter) a Typename with the "
+                 "_Atomic qualifier stays nested inside a TypeDecl, and the generator - which prints qualifiers from TypeDecl.quals only - drops it (`sizeof(_Atomic(int))` is generated as `sizeof(int)`)", m_)
+    if nfix < 3:
+        raise AnalysisError(f"only {nfix} methods calling _fix_decl_name_type found (confirmed by reading: 3)")
+
     # absent vs empty: the parser builds Struct/Union with decls=None (no body) and decls=[] (empty body); the generator must tell them apart
     se = g.methods.get("_generate_struct_union_enum")
     if se is None:
